@@ -333,3 +333,128 @@ def analyse(F, crate, body):
         unit, acc, ndom = loop[3], loop[4], loop[5]
         witness = witness or loop[6]
     return {"all_call": (abb, at), "empty_call": (E[1], et), "pred": pb, "unit": unit, "accepted": acc, "domain": ndom, "law_ok": witness is None, "witness": witness}
+
+
+# ------------------------------------------------------------------------------------------------ automaton form
+def loop_automaton(F, crate, body, max_states=48):
+    """A validator written as a scan `for unit in text.bytes() { state = step(state, unit) or return <bool> }; accept(state)`
+    with finitely many concrete states (an enum, flags, small counters).  The loop body is interpreted for every reachable
+    state and every byte value; the result is the deterministic automaton
+        {"start": s0, "delta": {(state, byte): state | ("ret", bool)}, "accept": {state: bool}, "states": [...]}
+    States are tuples of the values of the loop-carried locals (those live at the loop head and assigned in the loop)."""
+    from .cfg import CFG
+    cfg = CFG(body)
+    nexts = [(bb, t) for bb, t in body.calls() if t["call"]["name"] == "next" and t["call"]["def"].endswith("Iterator::next") and cfg.in_loop(bb)]
+    if len(nexts) != 1:
+        raise NotAnalysable(f"{len(nexts)} loops over an iterator")
+    nbb, nt = nexts[0]
+    dest = place_local(nt["dest"])
+    sw = body.blocks[nt["target"]]["t"]
+    tg = dict((v, b_) for v, b_ in sw.get("targets", [])) if "switch" in sw else {}
+    if 0 not in tg or 1 not in tg:
+        raise NotAnalysable("the loop does not match on next()'s result")
+    none_bb, some_bb = tg[0], tg[1]
+    uty = ((body.d["locals"][dest].get("ty") or {}).get("args") or [{}])[0]
+    while "ref" in uty:
+        uty = uty["ref"]
+    if uty.get("prim") != "u8":
+        raise NotAnalysable(f"automaton form is decided over bytes only (loop over {uty.get('prim')})")
+    loop_blocks = {x for x in cfg.reachable_from(nbb) if nbb in cfg.reachable_from(x)}
+    live = dt.live_in(body)[nbb]
+    assigned = set()
+    for i in loop_blocks:
+        blk = body.blocks[i]
+        for st in blk["s"]:
+            if "d" in st and (isinstance(st["d"], int) or not st["d"]["p"]):
+                assigned.add(place_local(st["d"]))
+    carried = sorted(l for l in live & assigned)
+    I = minterp.Interp(F, crate, inline=lambda d_, rid: rid.startswith(crate.name + "::") and rid != body.id, max_depth=3)
+    try:
+        r0 = I.run(body, [("sym", f"a{k}") for k in range(1, body.argc + 1)], stop=(nbb,))
+    except minterp.Unsupported as e:
+        raise NotAnalysable(f"code before the scan: {e}")
+    if r0 != ("stop", nbb):
+        raise NotAnalysable("the scan is not reached unconditionally")
+    env0 = dict(I.last_env)
+
+    def freeze(v):
+        if isinstance(v, list):
+            return tuple(freeze(x) for x in v)
+        if isinstance(v, tuple):
+            return tuple(freeze(x) for x in v)
+        return v
+
+    def state_of(env):
+        vals = []
+        for l in carried:
+            v = env.get(l, None)
+            if minterp.contains_opaque(v) if v is not None else False:
+                raise NotAnalysable(f"loop-carried local _{l} is not a concrete value")
+            vals.append(freeze(v))
+        return tuple(vals)
+
+    def thaw_(v):
+        if isinstance(v, tuple) and v and v[0] == "adt":
+            return ("adt", v[1], v[2], [thaw_(x) for x in v[3]])
+        if isinstance(v, tuple) and v and v[0] == "tuple":
+            return ("tuple", [thaw_(x) for x in v[1]])
+        return v
+    s0 = state_of(env0)
+    delta, accept, order, work = {}, {}, [s0], [s0]
+    while work:
+        st = work.pop()
+        env = dict(env0)
+        for l, v in zip(carried, st):
+            if v is None:
+                env.pop(l, None)
+            else:
+                env[l] = thaw_(v)
+        try:
+            ra = I.run(body, [], start=none_bb, env=env)
+        except minterp.Unsupported as e:
+            raise NotAnalysable(f"end of scan in state {st}: {e}")
+        if not isinstance(ra, bool):
+            raise NotAnalysable(f"end of scan in state {st} yields {ra!r}")
+        accept[st] = ra
+        for v in range(256):
+            e2 = dict(env)
+            e2[dest] = minterp.adt("core::option::Option", 1, [v])
+            try:
+                r = I.run(body, [], start=some_bb, env=e2, stop=(nbb,))
+            except minterp.Unsupported as e:
+                raise NotAnalysable(f"scan step in state {st} for byte {v:#x}: {e}")
+            if r == ("stop", nbb):
+                nxt = state_of(I.last_env)
+                delta[(st, v)] = nxt
+                if nxt not in accept and nxt not in work and nxt not in order:
+                    order.append(nxt)
+                    work.append(nxt)
+                    if len(order) > max_states:
+                        raise NotAnalysable("too many scan states")
+            elif isinstance(r, bool):
+                delta[(st, v)] = ("ret", r)
+            else:
+                raise NotAnalysable(f"scan step in state {st} for byte {v:#x} yields {r!r}")
+    return {"start": s0, "delta": delta, "accept": accept, "states": order, "carried": carried, "next": (nbb, nt)}
+
+
+def automaton_difference(A, spec_start, spec_delta, spec_accept, max_len=12):
+    """shortest byte string on which automaton A and the specification automaton (delta(state, byte) -> state, accept(state)
+    -> bool) disagree, or None if they accept the same language"""
+    from collections import deque
+    seen = set()
+    q = deque([(A["start"], spec_start, b"")])
+    while q:
+        a, s_, w = q.popleft()
+        if (a, s_) in seen:
+            continue
+        seen.add((a, s_))
+        acc_a = a[1] if isinstance(a, tuple) and len(a) == 2 and a[0] == "ret" else A["accept"][a]
+        if acc_a != spec_accept(s_):
+            return w
+        for v in range(256):
+            na = a if (isinstance(a, tuple) and len(a) == 2 and a[0] == "ret") else A["delta"][(a, v)]
+            ns = spec_delta(s_, v)
+            if (na, ns) not in seen and len(w) < max_len:
+                q.append((na, ns, w + bytes([v])))
+    return None
